@@ -2,7 +2,7 @@ SPECIFICATION Spec
 CONSTANTS
   MaxLen = 6
   MaxLen2 = 3
-  MaxPair = 5
-  MaxA2 = 5
+  MaxPair = 4
+  MaxA2 = 6
 POSTCONDITION Consumed
 CHECK_DEADLOCK FALSE
